@@ -521,7 +521,7 @@ impl Trace {
                             _ => return Err(format!("unknown run key {k}")),
                         }
                     }
-                    if r.knobs.slots == 0 || r.knobs.slots > 64 || r.knobs.preempt > 100 || r.knobs.heap > 255 || r.knobs.guard > 2 {
+                    if r.knobs.slots == 0 || r.knobs.slots > 64 || r.knobs.preempt > 100 || r.knobs.heap > 255 || r.knobs.guard > 3 {
                         return Err(format!("bad knobs: {l}"));
                     }
                     cur = Some(r);
@@ -1500,6 +1500,9 @@ pub fn generate_kind(seed: u64, prof: Profile, miri: bool, kind: Option<u64>) ->
     };
     let knobs = if contention && !miri && r.pct(40) { Knobs { stress: r.range(20, 60), ..knobs } } else { knobs };
     let knobs = Knobs { scn: if contention { 1 } else if sweep { 2 } else { 0 }, ..knobs };
+    // a fifth of the runs without guard pages: the allocator recycles freed blocks eagerly
+    // (guard = 3; drawn from a stream of its own)
+    let knobs = if !miri && knobs.guard == 0 && crate::rng::mix(seed, 0x7265_7573) % 5 == 0 { Knobs { guard: 3, ..knobs } } else { knobs };
     let (nthreads, nops, knobs) = if sweep {
         // few threads, long programmes, no immediate repetition (it would turn every miss into a hit)
         (r.range(1, 2), r.range(30, 60), Knobs { repeat: 0, ..knobs })
